@@ -1,56 +1,97 @@
 (* Model/Stack.v — stacks of filesystems over one universal state type, the top-level
    case language (targets, handle slots, snapshots) and its interpreter. *)
-From AF Require Import Lib.Bytes Lib.Path Lib.Ops Gen.Consts Model.MemFile Model.MemFs Model.ReadOnly Model.BasePath.
+From AF Require Import Lib.Bytes Lib.Path Lib.Ops Gen.Consts Model.MemFile Model.MemFs Model.ReadOnly Model.BasePath
+  Model.Regexp Model.Union Model.Cow Model.Cache.
 
 Inductive stack :=
 | SMem
 | SReadOnly (k : stack)
-| SBasePath (root : str) (k : stack).
+| SBasePath (root : str) (k : stack)
+| SRegexp (pat : nat) (k : stack)
+| SCow (b l : stack)
+| SCache (dur : Z) (b l : stack).
+
+(* the regular expressions the harness uses, as functions of the whole name (all three are
+   decided by the final path element); package regexp itself is trusted *)
+Definition last_elem (name : str) : str := snd (path_split name).
+Definition re_match (pat : nat) (name : str) : bool :=
+  match pat with
+  | 0%nat => has_suffix name [46; 116; 120; 116]%N                                   (* \.txt$ *)
+  | 1%nat => negb (is_empty (last_elem name)) &&
+             forallb (fun c => N.eqb c 97 || N.eqb c 98) (last_elem name)             (* (^|/)[ab]+$ *)
+  | 2%nat => match last_elem name with c :: _ => N.eqb c 97 | [] => false end        (* (^|/)a[^/]*$ *)
+  | _ => true
+  end.
 
 (* universal state: a memory filesystem, or a wrapper's own table around its children *)
 Inductive ust :=
 | UMem (m : mst)
-| UW1 (u : ust).
+| UW1 (wrapped : list nat) (u : ust)
+| UW2 (clk : Z) (tbl : list chandle) (b l : ust).
 
 Fixpoint uinit (k : stack) : ust :=
   match k with
   | SMem => UMem m_init
-  | SReadOnly k' => UW1 (uinit k')
-  | SBasePath _ k' => UW1 (uinit k')
+  | SReadOnly k' | SBasePath _ k' | SRegexp _ k' => UW1 [] (uinit k')
+  | SCow b l | SCache _ b l => UW2 BIG [] (uinit b) (uinit l)
   end.
 
-Definition lift1 (f : ust -> op -> ust * res) (u : ust) (o : op) : ust * res :=
-  match u with
-  | UW1 i => let '(i', r) := f i o in (UW1 i', r)
-  | _ => (u, RPanic)
-  end.
-Definition unwrap1 (u : ust) : ust := match u with UW1 i => i | _ => u end.
+Definition unwrap1 (u : ust) : ust := match u with UW1 _ i => i | _ => u end.
+Definition wrapped1 (u : ust) : list nat := match u with UW1 w _ => w | _ => [] end.
+Definition base2 (u : ust) : ust := match u with UW2 _ _ b _ => b | _ => u end.
+Definition layer2 (u : ust) : ust := match u with UW2 _ _ _ l => l | _ => u end.
+Definition tbl2 (u : ust) : list chandle := match u with UW2 _ t _ _ => t | _ => [] end.
+Definition clk2 (u : ust) : Z := match u with UW2 c _ _ _ => c | _ => 0%Z end.
 
 Fixpoint ustep (k : stack) (u : ust) (o : op) : ust * res :=
   match k with
   | SMem => match u with UMem m => let '(m', r) := m_step m o in (UMem m', r) | _ => (u, RPanic) end
   | SReadOnly k' =>
-      let '(i', r) := ro_step (ustep k') (unwrap1 u) o in (UW1 i', r)
+      let '(i', r) := ro_step (ustep k') (unwrap1 u) o in (UW1 [] i', r)
   | SBasePath root k' =>
-      let '(i', r) := bp_step (ustep k') root (unwrap1 u) o in (UW1 i', r)
+      let '(i', r) := bp_step (ustep k') root (unwrap1 u) o in (UW1 [] i', r)
+  | SRegexp pat k' =>
+      let '((i', w'), r) := re_step (ustep k') (re_match pat) (unwrap1 u, wrapped1 u) o in (UW1 w' i', r)
+  | SCow kb kl =>
+      let '((b', l', t'), r) := cow_step (ustep kb) (ustep kl) (base2 u, layer2 u, tbl2 u) o in
+      (UW2 (clk2 u) t' b' l', r)
+  | SCache dur kb kl =>
+      let '((b', l', t'), r) := cache_step (ustep kb) (ustep kl) (dur * 1000000000000) (clk2 u) (base2 u, layer2 u, tbl2 u) o in
+      (UW2 (clk2 u) t' b' l', r)
   end.
 
 (* apply an op to a layer of the stack addressed by a list of child indices *)
 Fixpoint ustep_at (k : stack) (tgt : list nat) (u : ust) (o : op) : ust * res :=
   match tgt with
   | [] => ustep k u o
-  | _ :: t' =>
+  | c :: t' =>
     match k with
     | SMem => (u, RNoSlot)
-    | SReadOnly k' | SBasePath _ k' =>
-      let '(i', r) := ustep_at k' t' (unwrap1 u) o in (UW1 i', r)
+    | SReadOnly k' | SBasePath _ k' | SRegexp _ k' =>
+      let '(i', r) := ustep_at k' t' (unwrap1 u) o in (UW1 (wrapped1 u) i', r)
+    | SCow kb kl | SCache _ kb kl =>
+      match c with
+      | O => let '(b', r) := ustep_at kb t' (base2 u) o in (UW2 (clk2 u) (tbl2 u) b' (layer2 u), r)
+      | _ => let '(l', r) := ustep_at kl t' (layer2 u) o in (UW2 (clk2 u) (tbl2 u) (base2 u) l', r)
+      end
     end
+  end.
+
+(* time.Now() during one top-level item: every clock of the stack is set to [now] *)
+Fixpoint uset_clock (k : stack) (u : ust) (now : Z) : ust :=
+  match k with
+  | SMem => match u with UMem m => UMem (mkM (mdata m) (mheap m) (mhandles m) now) | _ => u end
+  | SReadOnly k' | SBasePath _ k' | SRegexp _ k' => UW1 (wrapped1 u) (uset_clock k' (unwrap1 u) now)
+  | SCow kb kl | SCache _ kb kl =>
+    UW2 now (tbl2 u) (uset_clock kb (base2 u) now) (uset_clock kl (layer2 u) now)
   end.
 
 Fixpoint usub (k : stack) (tgt : list nat) (u : ust) : option mst :=
   match tgt, k with
   | [], SMem => match u with UMem m => Some m | _ => None end
-  | _ :: t', SReadOnly k' | _ :: t', SBasePath _ k' => usub k' t' (unwrap1 u)
+  | _ :: t', SReadOnly k' | _ :: t', SBasePath _ k' | _ :: t', SRegexp _ k' => usub k' t' (unwrap1 u)
+  | c :: t', SCow kb kl | c :: t', SCache _ kb kl =>
+    match c with O => usub kb t' (base2 u) | _ => usub kl t' (layer2 u) end
   | _, _ => None
   end.
 
@@ -88,22 +129,8 @@ Fixpoint slot_get (sl : slots) (n : nat) : option (list nat * nat) :=
   | (k, v) :: r => if Nat.eqb k n then Some v else slot_get r n
   end.
 
-Definition op_handle (o : op) : option nat :=
-  match o with
-  | HRead h _ | HReadAt h _ _ | HWrite h _ | HWriteAt h _ _ | HWriteString h _ | HSeek h _ _
-  | HTruncate h _ | HClose h | HReaddir h _ | HReaddirnames h _ | HStat h | HName h | HSync h => Some h
-  | _ => None
-  end.
-
-Definition op_with_handle (o : op) (h : nat) : op :=
-  match o with
-  | HRead _ n => HRead h n | HReadAt _ n off => HReadAt h n off | HWrite _ b => HWrite h b
-  | HWriteAt _ b off => HWriteAt h b off | HWriteString _ b => HWriteString h b
-  | HSeek _ off w => HSeek h off w | HTruncate _ n => HTruncate h n | HClose _ => HClose h
-  | HReaddir _ n => HReaddir h n | HReaddirnames _ n => HReaddirnames h n | HStat _ => HStat h
-  | HName _ => HName h | HSync _ => HSync h
-  | _ => o
-  end.
+Definition op_handle (o : op) : option nat := op_handle_of o.
+Definition op_with_handle (o : op) (h : nat) : op := op_set_handle o h.
 
 Definition run_item (k : stack) (st : ust * slots) (it : item) : (ust * slots) * tres :=
   let '(u, sl) := st in
@@ -126,10 +153,13 @@ Definition run_item (k : stack) (st : ust * slots) (it : item) : (ust * slots) *
     end
   end.
 
-Fixpoint run_items (k : stack) (st : ust * slots) (its : list item) : list tres :=
+(* item number i runs with time.Now() = BIG + 1000 * i on every layer *)
+Fixpoint run_items (k : stack) (i : Z) (st : ust * slots) (its : list item) : list tres :=
   match its with
   | [] => []
-  | it :: r => let '(st', x) := run_item k st it in x :: run_items k st' r
+  | it :: r =>
+    let st0 := (uset_clock k (fst st) (BIG + 1000 * i)%Z, snd st) in
+    let '(st', x) := run_item k st0 it in x :: run_items k (i + 1)%Z st' r
   end.
 
-Definition run_case (k : stack) (its : list item) : list tres := run_items k (uinit k, []) its.
+Definition run_case (k : stack) (its : list item) : list tres := run_items k 0%Z (uinit k, []) its.
